@@ -128,10 +128,13 @@ impl BytesToBytesCodecTraits for GzipCodec {
             .map_or(BytesRepresentation::UnboundedSize, |size| {
                 // https://www.gnu.org/software/gzip/manual/gzip.pdf
                 const HEADER_TRAILER_OVERHEAD: u64 = 10 + 8; // TODO: validate that extra headers are not populated
-                const BLOCK_SIZE: u64 = 32768;
-                const BLOCK_OVERHEAD: u64 = 5;
-                let blocks_overhead = BLOCK_OVERHEAD * size.div_ceil(BLOCK_SIZE);
-                BytesRepresentation::BoundedSize(size + HEADER_TRAILER_OVERHEAD + blocks_overhead)
+                // Conservative deflate bound (miniz `mz_deflateBound`): small incompressible inputs
+                // can expand by more than the stored-block overhead
+                let deflate_bound = std::cmp::max(
+                    128 + size + size.div_ceil(10),
+                    128 + size + (size / (31 * 1024) + 1) * 5,
+                );
+                BytesRepresentation::BoundedSize(deflate_bound + HEADER_TRAILER_OVERHEAD)
             })
     }
 }
